@@ -221,6 +221,10 @@ def build_world(spec: dict) -> World:
         batching=bool(f.get("batching", False)),
     )
     w.scheduler._allowed_to_miss_deadlines = set(spec.get("allowed0", []))
+    if spec.get("warmup"):
+        # warm-scheduler flavour: the same scheduler object has already been invoked once, on an unrelated world
+        # (its persistent `_allowed_to_miss_deadlines` is read at the judged call and handed to the model)
+        _worlds.run_warmup(R, w.scheduler, spec["warmup"])
     return w
 
 
@@ -1435,6 +1439,7 @@ def run_case(spec: dict, want_opt: bool):
 
 def canonical_case(spec: dict) -> dict:
     c = {k: spec[k] for k in ("now", "pools", "graphs", "flags", "allowed0")}
+    c.update({k: spec[k] for k in ("scale", "warmup") if spec.get(k)})  # flavours (harness/planners/_worlds.py)
     return c
 
 
@@ -1486,6 +1491,8 @@ def _count_flavours(chk, name, spec):
         chk.count(f"{name}:flavour=declaration-order" + ("" if all(_worlds.is_topological_decl(g) for g in spec["graphs"]) else ",non-topological"))
     if spec.get("flavour"):
         chk.count(f"{name}:flavour={spec['flavour']}")
+    if spec.get("warmup"):
+        chk.count(f"{name}:flavour=warm-scheduler")
 
 
 def counts_for(prop: str, tier: str) -> int:
@@ -1548,7 +1555,7 @@ def mixed_corpus() -> list[dict]:
     ]
 
 
-P_DECL, P_MIXED = 0.4, 0.25
+P_DECL, P_MIXED, P_WARM = 0.4, 0.25, 0.15
 
 
 def gen_specs(prop: str, rng, tier: str, widened=False) -> list[dict]:
@@ -1572,6 +1579,10 @@ def gen_specs(prop: str, rng, tier: str, widened=False) -> list[dict]:
             _worlds.shuffle_decl(spec, fr)
         if prop != "C14" and spec["kind"] != "c14" and fr.random() < P_MIXED:
             _worlds.scale_mixed(spec, fr)
+    wr = rng.sub(f"ilp/{prop}/{'w' if widened else 'n'}/warmup")
+    for spec in specs[n_corpus:]:
+        if wr.random() < P_WARM:
+            _worlds.gen_warmup(spec, wr)
     if prop != "C14":
         specs[n_corpus:n_corpus] = mixed_corpus()
     if prop in ("C10", "C11"):
